@@ -3,7 +3,9 @@
 # Rebuilds the driver and (inside it) verifrun from /repo's current working tree.
 set -u
 export GOFLAGS=-mod=mod GOPROXY=off GOSUMDB=off GOTOOLCHAIN=local
-cd /verif/harness || exit 2
-mkdir -p /verif/bin
-go build -o /verif/bin/verif ./cmd/verif || { echo "verif: driver build failed"; exit 2; }
-exec /verif/bin/verif "$@"
+DIR="$(cd "$(dirname "$0")" && pwd)"
+export VERIF_DIR="$DIR"
+cd "$DIR/harness" || exit 2
+mkdir -p "$DIR/bin"
+go build -o "$DIR/bin/verif" ./cmd/verif || { echo "verif: driver build failed"; exit 2; }
+exec "$DIR/bin/verif" "$@"
